@@ -25,8 +25,8 @@ ID = 'C09'
 TIER = 'quick'
 LEVEL = 'exploration'
 ENGINE = 'history'
-BUDGET = {'quick': 2000, 'thorough': 60000}
-WALL = {'quick': 50, 'thorough': 1500}
+BUDGET = {'quick': 3000, 'thorough': 60000}
+WALL = {'quick': 90, 'thorough': 1500}
 RULE = ('histories of 4-14 (quick) / 5-40 (thorough) simulated commands (put, restore, rm, empty, foreign additions, clock jumps) over '
         '1-4 volumes; after every step trash-list is run and compared with the model bag; non-trivial = the '
         'history changed the bag at least twice; distinct = distinct sequences of (command kind, bag size) pairs')
@@ -110,7 +110,9 @@ def gen(rng):
         'world': {'mounts': L['mounts'], 'steps': steps},
         'procs': procs,
         'dirsalt': rng.randrange(1 << 30),
-        'clock': {'start': start.strftime('%Y-%m-%dT%H:%M:%S.%f'), 'utcoffset_s': rng.choice([0, 3600, -18000, 19800, 34200, 50400, -43200])},
+        'clock': {'start': start.strftime('%Y-%m-%dT%H:%M:%S.%f'), 'utcoffset_s': rng.choice([0, 3600, -18000, 19800, 34200, 50400, -43200]),
+                  # does the zone have DST rules (time.daylight) and is DST in effect now (tm_isdst)? utcoffset_s is the offset in effect
+                  'dst': rng.choice([None, None, {'has': True, 'on': True}, {'has': True, 'on': False}])},
         'env': env, 'uid': uid,
     }
 
